@@ -1078,6 +1078,8 @@ def field_mutators(facts, adt_suffix, field, skip=None):
     for b in facts.all_bodies():
         if skip and skip(b):
             continue
+        if facts.is_new_helper(b.npath):
+            continue        # seen inlined in its callers
         for i in sorted(b.live_blocks()):
             for s in b.blocks[i]['st']:
                 if s['k'] != 'assign':
